@@ -48,7 +48,7 @@ Fixpoint nlookup {A} (k : str) (l : list (str * A)) : option A :=
 Definition smem (k : string) (l : list string) : bool := existsb (String.eqb k) l.
 
 (* results with the exception classes the modelled code can raise *)
-Inductive exn := EKey | EValue | EType | EAssertion | EAttribute | ENotImplemented
+Inductive exn := EKey | EValue | EType | EAssertion | EAttribute | ENotImplemented | EStopIteration
                | EFuel          (* the model's recursion budget ran out: excluded by the theorems *)
                | EUnmodelled.   (* input outside the modelled fragment: never produced by the generators *)
 Inductive res (A : Type) := Ok (a : A) | Err (e : exn).
@@ -823,6 +823,34 @@ Section ToInternal.
   (* createDataFrame(rows) without a schema, then collect() *)
   Definition create_inferred (rows : list pyval) : res (list pyval) :=
     bind (infer_schema_from_list rows) (fun s =>
+      bind (mapM (fun r => bind (convert s r) (to_internal s)) rows) (fun internal =>
+        mapM (make_row (schema_names s)) internal)).
+
+  (* SparkSession._inferSchema(rdd): the first row alone when it determines every type, otherwise merged with
+     the following rows (of the first 100) until no NullType is left; for/else: ValueError when they run out *)
+  Fixpoint rdd_merge (acc : dtype) (rows : list pyval) : res dtype :=
+    match rows with
+    | [] => Err EValue
+    | r :: rest =>
+        bind (infer_schema r) (fun s =>
+          bind (merge_type acc s) (fun acc' => if has_nulltype acc' then rdd_merge acc' rest else Ok acc'))
+    end.
+
+  Definition infer_schema_rdd (rows : list pyval) : res dtype :=
+    match rows with
+    | [] => Err EStopIteration                       (* rdd.first() *)
+    | first :: rest =>
+        if py_falsy first then Err EValue             (* "The first row in RDD is empty" *)
+        else match first with
+             | PDict _ => Err ENotImplemented
+             | _ => bind (infer_schema first) (fun s =>
+                      if has_nulltype s then rdd_merge s (firstn 99 rest) else Ok s)
+             end
+    end.
+
+  (* createDataFrame(sc.parallelize(rows)) without a schema, then collect() *)
+  Definition create_inferred_rdd (rows : list pyval) : res (list pyval) :=
+    bind (infer_schema_rdd rows) (fun s =>
       bind (mapM (fun r => bind (convert s r) (to_internal s)) rows) (fun internal =>
         mapM (make_row (schema_names s)) internal)).
 
